@@ -13,6 +13,9 @@ Definition ts_events (outs : list tsout) : list tsev :=
 Definition msgs_of (acts : list action) : list rmsg :=
   flat_map (fun a => match a with AMsg m => [m] | _ => [] end) acts.
 Definition is_ts (o : tsout) : Prop := match o with OutTs _ => True | OutPatPmt _ => False end.
+(* after the first PAT/PMT: frames, or a new version of the PMT (a track that started late) *)
+Definition ts_or_pmt (o : tsout) : Prop :=
+  match o with OutTs _ => True | OutPatPmt b => exists v a k, b = pack_pat ++ pack_pmt_ver v a k end.
 
 Lemma ts_events_app a b : ts_events (a ++ b) = ts_events a ++ ts_events b.
 Proof. unfold ts_events. apply flat_map_app. Qed.
@@ -22,6 +25,18 @@ Lemma msgs_of_app a b : msgs_of (a ++ b) = msgs_of a ++ msgs_of b.
 Proof. unfold msgs_of. apply flat_map_app. Qed.
 Lemma is_ts_map evs : Forall is_ts (map OutTs evs).
 Proof. apply Forall_map. apply Forall_forall. intros; exact I. Qed.
+Lemma ts_or_pmt_map evs : Forall ts_or_pmt (map OutTs evs).
+Proof. apply Forall_map. apply Forall_forall. intros; exact I. Qed.
+
+Lemma late_track_spec f m :
+  fq_done (fst (late_track f m)) = fq_done f /\ fq_data (fst (late_track f m)) = fq_data f
+  /\ match snd (late_track f m) with Some b => exists v a k, b = pack_pat ++ pack_pmt_ver v a k | None => True end.
+Proof.
+  unfold late_track. destruct (rm_type m =? type_audio).
+  - destruct (_ || _); [now repeat split|]. destruct (_ || _); cbn [fst snd fq_done fq_data]; repeat split. now eexists _, _, _.
+  - destruct (rm_type m =? type_video); [|now repeat split].
+    destruct (negb _); [now repeat split|]. destruct (_ || _); cbn [fst snd fq_done fq_data]; repeat split. now eexists _, _, _.
+Qed.
 
 (* the messages the core has been handed so far *)
 Definition popped (x : remuxer) (acts : list action) : list rmsg :=
@@ -31,7 +46,7 @@ Definition run_inv (x : remuxer) (outs : list tsout) (acts : list action) : Prop
   chained (x_core x) (ts_events outs)
   /\ (Forall aac_only (msgs_of acts) -> batched (x_core x) (ts_events outs) (popped x acts))
   /\ (if fq_done (x_filter x)
-      then exists v a rest, outs = OutPatPmt (pack_pat ++ pack_pmt v a) :: rest /\ Forall is_ts rest
+      then exists v a rest, outs = OutPatPmt (pack_pat ++ pack_pmt v a) :: rest /\ Forall ts_or_pmt rest
       else outs = [] /\ fq_data (x_filter x) = msgs_of acts /\ x_core x = r2t_init).
 
 Lemma run_inv_init : run_inv remuxer_init [] [].
@@ -67,7 +82,7 @@ Section AnyObserver.
       - intros Ho. unfold popped. cbn [x_filter]. rewrite Hm in *. eapply flushed_batched; [exact (Hb Ho)|exact Hp].
       - destruct (fq_done (x_filter x)).
         + destruct Hf as (v & a0 & rest & -> & Hr). exists v, a0, (rest ++ map OutTs evs). split; [reflexivity|].
-          apply Forall_app. split; [assumption|apply is_ts_map].
+          apply Forall_app. split; [assumption|apply ts_or_pmt_map].
         + destruct Hf as (-> & Hd & Hi). rewrite Hi in Hp. cbn in Hp. injection Hp as <- <-.
           rewrite Hm. now repeat split. }
     destruct a as [m| |].
@@ -75,19 +90,27 @@ Section AnyObserver.
       unfold feed_rtmp_message in E.
       assert (Hm : msgs_of (acts ++ [AMsg m]) = msgs_of acts ++ [m]) by (rewrite msgs_of_app; reflexivity).
       destruct (fq_done (x_filter x)) eqn:Ed.
-      + destruct (on_pop_is_pure O obs_decide obs_apply (x_core x) o m) as [d Hd].
-        destruct (on_pop O obs_decide obs_apply (x_core x) o m) as [[s1 o1] evs] eqn:Eo.
-        injection E as <- <- <-. unfold run_inv. cbn [x_core x_filter]. rewrite ts_events_app, ts_events_map.
+      + destruct (late_track_spec (x_filter x) m) as (Ld & _ & Lp).
+        destruct (late_track (x_filter x) m) as [f' pp]. cbn [fst snd] in Ld, Lp. rewrite Ed in Ld.
+        set (o0 := match pp with Some b => obs_patpmt o b | None => o end) in *.
+        destruct (on_pop_is_pure O obs_decide obs_apply (x_core x) o0 m) as [d Hd].
+        destruct (on_pop O obs_decide obs_apply (x_core x) o0 m) as [[s1 o1] evs] eqn:Eo.
+        injection E as <- <- <-. unfold run_inv. cbn [x_core x_filter].
+        assert (Hev : ts_events (outs ++ match pp with Some b => [OutPatPmt b] | None => [] end ++ map OutTs evs) = ts_events outs ++ evs).
+        { rewrite !ts_events_app, ts_events_map. destruct pp; cbn; reflexivity. }
+        rewrite Hev.
         split; [eapply on_pop_chained; eassumption|]. split.
-        * intros Ho. unfold popped in *. cbn [x_filter]. rewrite Ed in *. rewrite Hm in *.
+        * intros Ho. unfold popped in *. cbn [x_filter]. rewrite Ld. rewrite Ed in *. rewrite Hm in *.
           apply Forall_app in Ho. destruct Ho as [Ho1 Ho2]. inversion Ho2; subst.
           eapply on_pop_batched; [exact (Hb Ho1)|assumption|exact Hd].
-        * rewrite Ed. destruct Hf as (v & a0 & rest & -> & Hr). exists v, a0, (rest ++ map OutTs evs).
-          split; [reflexivity|]. apply Forall_app. split; [assumption|apply is_ts_map].
+        * rewrite Ld. destruct Hf as (v & a0 & rest & -> & Hr).
+          exists v, a0, (rest ++ match pp with Some b => [OutPatPmt b] | None => [] end ++ map OutTs evs).
+          split; [reflexivity|]. apply Forall_app. split; [assumption|]. apply Forall_app. split; [|apply ts_or_pmt_map].
+          destruct pp; [constructor; [exact Lp|constructor]|constructor].
       + destruct Hf as (-> & Hdata & Hinit).
         set (a1 := if rm_type m =? type_audio then Z.of_N (pb m 0 / 16) else fq_acodec (x_filter x)) in *.
         set (v1 := if rm_type m =? type_video then Z.of_N (video_codec_id m) else fq_vcodec (x_filter x)) in *.
-        set (f1 := mk_tsfilt (fq_data (x_filter x) ++ [m]) a1 v1 false) in *.
+        set (f1 := mk_tsfilt (fq_data (x_filter x) ++ [m]) a1 v1 false (fq_version (x_filter x))) in *.
         assert (Hdrain : drain O obs_decide obs_apply obs_patpmt x o f1 = (x', o', outs') ->
                          run_inv x' ([] ++ outs') (acts ++ [AMsg m])).
         { unfold drain. cbn [fq_vcodec fq_acodec fq_data f1].
@@ -99,7 +122,7 @@ Section AnyObserver.
           split; [exact (pop_all_chained _ _ _ [] _ _ chained_init Hds)|]. split.
           - intros Ho. unfold popped. cbn [x_filter fq_done]. rewrite Hm in *. rewrite <- Hdata in *.
             exact (pop_all_batched _ _ _ [] [] _ _ batched_init Ho Hds).
-          - exists v1, a1, (map OutTs evs). split; [reflexivity|apply is_ts_map]. }
+          - exists v1, a1, (map OutTs evs). split; [reflexivity|apply ts_or_pmt_map]. }
         destruct (negb (v1 =? -1)%Z && negb (a1 =? -1)%Z); [exact (Hdrain E)|].
         destruct (Nat.leb filter_max_msgs (length (fq_data f1))); [exact (Hdrain E)|].
         injection E as <- <- <-. unfold run_inv. cbn [app x_core x_filter fq_done fq_data f1 ts_events flat_map].
@@ -189,12 +212,12 @@ Proof. intros ((Ha & _) & (Hv & _) & _). destruct audio; assumption. Qed.
 
 Lemma track_times audio s evs e0 rest e :
   chained s evs -> track_evs audio evs = e0 :: rest -> te_dts0 e0 <> max_u64 -> In e (e0 :: rest) ->
-  f_dts (te_frame e) = (if te_dts0 e <? te_dts0 e0 then te_dts0 e else te_dts0 e - te_dts0 e0)
+  f_dts (te_frame e) = rebase_dts (te_dts0 e) (te_dts0 e0)
   /\ f_pts (te_frame e) = u64 (f_dts (te_frame e) + 90 * te_cts e).
 Proof.
   intros Hc Ht Hb Hin. pose proof (chained_track s evs audio Hc) as Hch. rewrite Ht in Hch.
   destruct Hin as [<-|Hin].
   - destruct (chain_first_base _ _ _ Hch) as (H0 & _). cbn [chain] in Hch. destruct Hch as (_ & _ & _ & Hp & _).
-    split; [|exact Hp]. rewrite H0, N.ltb_irrefl. lia.
+    split; [|exact Hp]. rewrite H0. unfold rebase_dts. rewrite N.ltb_irrefl. lia.
   - destruct (chain_first_base _ _ _ Hch) as (_ & Hr). exact (chain_times rest _ _ e Hr Hb Hin).
 Qed.
